@@ -28,6 +28,15 @@ CLAIMED = {
  "C20": ("exploration", "runtime monitoring: reference-reader oracle over observed diagnostics (first offending element, position, tail independence)",
          "Every single-token edit and truncation of generated specifications, and stray/unterminated lexical elements at every gap, are fed to spec.Parse, ebnf ast.Parse and Parser.Parse (CLI for a sample); the reported file:line:col must be that of the first offending element per the reference reader, early ends must not blame an earlier token, and replacing the tail must not change the message.",
          "Trusted base: R1 reader (its error index is cross-validated against the tables by C04).", "5/C20"),
+ "C06": ("exploration", "runtime monitoring: differential oracle over observed tables - emerge's table is executed by an independent shift-reduce driver on all strings to a bound and compared with the bounded language / an independent LALR(1) table / a Pratt parser",
+         "For textbook grammar families, random grammars and operator grammars the real LALRParsingTable() is observed: accepted tables are executed on every terminal string up to a length bound (accept must equal membership in the language of the text as written, or the verdict of the reference table when directives decided conflicts), operator-grammar parses are compared with a Pratt parser, and accept/reject is compared with an independent LALR(1) construction using the documented resolution rule; rejections must report conflicts the grammar has.",
+         "Trusted base: R4 LALR construction + driver, R3 bounded languages, Pratt parser. Degenerate grammars (cyclic / unproductive non-terminals) and >2-way conflicts are masked.", "5/C06"),
+ "C07": ("exploration", "runtime monitoring: reference-model oracle over observed accept/reject, parsed diagnostics and recorded definitions",
+         "Well-formed specifications and ones seeded with every subset of up to 2 (quick) / 3 (thorough) of the eight defect kinds are parsed by the real spec.Parse (+ Spec.DFA for patterns); the defects present are recomputed from the text by the reference reader; rejected iff non-empty, every diagnostic claim must be a present defect, accepted specifications must carry exactly one correct definition per terminal.",
+         "Trusted base: R1 reader + defect model (c07.go). Open finding D18 (literal text equals a token name).", "5/C07"),
+ "C12": ("exploration", "runtime monitoring: reference-model oracle over observed Spec.Precedences (levels, associativity, handles, language of production handles)",
+         "Generated directive lists (0-8 levels, all associativities, terminal and rule handles with alternation and extended operators, any placement) are parsed by the real spec.Parse; the recorded levels are compared with the directives read by the reference reader; production handles must be grammar productions, be counted per distributed alternative and generate the written language.",
+         "Trusted base: R1 reader, R3 bounded languages (k=4).", "5/C12"),
 }
 
 PENDING_REASON = "check not built yet in this round (planned, see DESIGN.md section 5)"
